@@ -308,8 +308,15 @@ fn b0(s: &mut Sp) -> &'static str {
     }
 }
 
+/// a quoted string: either delimiter; the delimiter itself is written with a backslash inside, the
+/// OTHER quote character may be (`\\'` and `\\"` are escapes in both styles) but need not be
 fn squote(s: &mut Sp, text: &str) -> String {
     let q = if s.chance(50) { '"' } else { '\'' };
+    let esc_other = text.contains(['"', '\'']) && s.chance(40);
+    spell_quoted(text, q, esc_other)
+}
+
+fn spell_quoted(text: &str, q: char, esc_other: bool) -> String {
     let mut o = String::new();
     o.push(q);
     for c in text.chars() {
@@ -317,7 +324,7 @@ fn squote(s: &mut Sp, text: &str) -> String {
             '\\' => o.push_str("\\\\"),
             '\t' => o.push_str("\\t"),
             '\n' => o.push_str("\\n"),
-            c if c == q => {
+            c if c == q || (esc_other && (c == '"' || c == '\'')) => {
                 o.push('\\');
                 o.push(c)
             }
